@@ -25,11 +25,11 @@ RULE = ("cases: generated assemblies of 1..3 modules over BsaI/BbsI/BsmBI and 3 
         "{InjectedFault, InvalidSequence}, each followed by a retry, and the natural failure scenarios. Non-trivial = a faulted or "
         "failing call on inputs at least one of which carries a citation qualifier or a feature; distinct = distinct (case, crash point, exception kind).")
 ASSUMPTIONS = [
-    "references inside one record are pairwise distinct; citation qualifiers are well-formed [n] with n in range",
+    "references inside one record are pairwise distinct; citation qualifiers are well-formed [n] with n in range, except in the 'bad-citation' scenarios where one malformed / dangling qualifier serves as the failure trigger",
     "an absent reference list is equivalent to an empty one (as the statement says)",
 ]
 FLOORS = {"c07_purity_checks": 2000, "c07_faults_injected": 1000, "c07_natural_failures": 150, "c07_retries_compared": 1000,
-          "c07_repeat_calls_compared": 100, "c07_cases_with_citations": 40}
+          "c07_repeat_calls_compared": 100, "c07_cases_with_citations": 40, "c07_bad_citation_failures": 100}
 MUST_REACH = ["AssemblyManager._deref_citations", "AssemblyManager._ref_citations", "AssemblyManager._generate_assembly"]
 BUDGET_S = {"quick": 1200, "thorough": 7200}
 EXHAUSTIVE = {"quick": False, "thorough": False}
@@ -193,6 +193,24 @@ def execute(mat, ctx):
         recs = list(shared)
         recs[1 + j] = bad
         natural("invalid-module-%d" % j, recs)
+    # a malformed or dangling citation qualifier in element j (only as a failure trigger: the call raises and
+    # must leave every input - in particular the elements processed before j - untouched)
+    for j in range(nm + 1):
+        if not has_cit:
+            break
+        for badcit in ("7", "[99]", "[x]"):
+            spec = copy.deepcopy(specs[j])
+            spec["features"] = list(spec["features"]) + [{"type": "misc_feature", "parts": [[0, 1, 1]], "quals": {"uid": ["bad.%d" % j], "citation": [badcit]}}]
+            recs = list(shared)
+            recs[j] = gen.make_record(spec)
+            v, ms = ents(recs)
+            ctx.count("c07_natural_failures")
+            ctx.count("c07_bad_citation_failures")
+            ctx.count("evaluations")
+            sig = _call(v, ms, {"scenario": "bad-citation %r in element %d" % (badcit, j)})
+            ctx.hist("natural_outcome", "bad-citation:%s" % (sig[1] if sig[0] == "raised" else "product"))
+            ctx.nontrivial([mat["id"], mat["enzyme"], "bad-citation", j, badcit])
+            retry("bad citation %r in element %d" % (badcit, j))
     # invalid vector: a module used as the vector of itself has equal overhangs only by accident; build one explicitly
     ov = mat["overhangs"]
     rng = gen.rng_for("c07-invalid-vector", mat["id"])
